@@ -188,13 +188,22 @@ def _split_text_conditions(head_text):
     return head_text[:idx], head_text[idx+1:-1]
 
 
+def _copy_parse_tree(parse_tree):
+    # The partial parse trees are shared between states, so we never modify
+    # one in place
+    new_parse_tree = ParseTree(parse_tree.value)
+    new_parse_tree.sons = list(parse_tree.sons)
+    return new_parse_tree
+
+
 def _scanner(state, chart, processed):
     # We have an incomplete state and the next token is the word given as input
     # We move the end token and the dot token by one.
     end_idx = state.positions[1]
-    state.parse_tree.sons.append(ParseTree(state.production.body[state.positions[2]]))
+    parse_tree = _copy_parse_tree(state.parse_tree)
+    parse_tree.sons.append(ParseTree(state.production.body[state.positions[2]]))
     new_state = State(state.production, (state.positions[0], end_idx + 1, state.positions[2] + 1),
-                      state.feature_stucture, state.parse_tree)
+                      state.feature_stucture, parse_tree)
     if processed.add(end_idx + 1, new_state):
         chart[end_idx + 1].append(new_state)
 
@@ -214,7 +223,7 @@ def _completer(state, chart, processed):
                 copy_right_considered.unify(copy_left)
             except FeatureStructuresNotCompatibleException:
                 continue
-            parse_tree = next_state.parse_tree
+            parse_tree = _copy_parse_tree(next_state.parse_tree)
             parse_tree.sons.append(state.parse_tree)
             new_state = State(next_state.production,
                               (next_state.positions[0], state.positions[1], next_state.positions[2] + 1),
